@@ -2,6 +2,7 @@ package ledger
 
 import (
 	"fmt"
+	"strings"
 	"os"
 	"sync"
 	"testing"
@@ -88,6 +89,9 @@ func (c *logCore) Check(e zapcore.Entry, ce *zapcore.CheckedEntry) *zapcore.Chec
 	return ce
 }
 func (c *logCore) Write(e zapcore.Entry, _ []zapcore.Field) error {
+	if e.Level == zapcore.InfoLevel && !strings.Contains(e.Message, "view") && !strings.Contains(e.Message, "recover") {
+		return nil // only the consensus view-change / recovery messages are interesting at info level
+	}
 	c.mu.Lock()
 	c.counts[e.Level.String()+": "+e.Message]++
 	c.mu.Unlock()
@@ -108,6 +112,7 @@ type Node struct {
 	closed bool
 	dirs   []string
 
+	hook          func(*config.Blockchain)
 	prevBal       *ledgerBalances
 	prevBalHeight uint32
 }
@@ -141,7 +146,11 @@ func (l Local) apply(c *config.Blockchain) {
 
 // NewNode creates a node on a fresh disk (must be called inside the bubble).
 func NewNode(t *testing.T, name string, proto Proto, local Local) (*Node, error) {
-	n := &Node{Name: name, Local: local, Proto: proto, logs: &logCore{counts: map[string]int{}}, tb: &tbShim{TB: t}}
+	return newNodeWithHook(t, name, proto, local, nil)
+}
+
+func newNodeWithHook(t *testing.T, name string, proto Proto, local Local, hook func(*config.Blockchain)) (*Node, error) {
+	n := &Node{Name: name, Local: local, Proto: proto, logs: &logCore{counts: map[string]int{}}, tb: &tbShim{TB: t}, hook: hook}
 	dir := ""
 	if local.Backend%3 != simdisk.Memory {
 		var err error
@@ -188,6 +197,9 @@ func (n *Node) open() (err error) {
 		BlockchainConfigHook: func(c *config.Blockchain) {
 			n.Proto.apply(c)
 			n.Local.apply(c)
+			if n.hook != nil {
+				n.hook(c)
+			}
 		},
 		SkipRun: true,
 	})
